@@ -71,10 +71,21 @@ def coq_oz(x):
 
 
 def frame_coq(fr):
-    k, a, b = frame_of(fr)
-    if fr[0] == "none":
+    """the DOCUMENTED meaning of the window arguments as a Rel.v frame (book: rolling:n = rows:(1-n)..0, expanding =
+    rows:..0, bounds inclusive) -- written from the book, not from the implementation's argument handling: a
+    range whose start is after its end denotes the empty segment here"""
+    k = fr[0]
+    if k == "none":
         return "FNone"
-    return "(%s %s %s)" % ("FRows" if k == "rows" else "FRange", coq_oz(a), coq_oz(b))
+    if k == "expanding":
+        return "(FRows None (Some 0))"
+    if k == "rolling":
+        return "(FRows %s (Some 0))" % coq_oz(1 - fr[1])
+    return "(%s %s %s)" % ("FRows" if k == "rows" else "FRange", coq_oz(fr[1]), coq_oz(fr[2]))
+
+
+def empty_range(fr):
+    return fr[0] in ("rows", "range") and fr[1] is not None and fr[2] is not None and fr[1] > fr[2]
 
 
 def all_frames(kinds=("rows", "range")):
@@ -269,7 +280,8 @@ def build(case):
         wnames.append(nm)
         items.append("%s = %s" % (nm, fn_prql(f, k, arg)))
         citems.append("(Some %d%%N, %s, %s)" % (P.nid(nm), fn_coq(f, k), P.coq_expr(arg)))
-        wmeta[nm] = {"fn": f, "frame": case.frame, "sorted": case.sorted, "f22": f22_class(f, case.frame, case.sorted)}
+        wmeta[nm] = {"fn": f, "frame": case.frame, "sorted": case.sorted, "f22": f22_class(f, case.frame, case.sorted),
+                     "empty": empty_range(case.frame) and f in FRAME_SENSITIVE}
     by = [case.part] if case.part else []
     if case.unique:
         keep = [c for c in ("id", "g", "c", "b") if c in avail]
@@ -299,6 +311,7 @@ def build(case):
         dkeys = "{(%s), id}" % fn_prql(f, k, arg)
         citems = citems[:1]
         wmeta = {"x1": dict(wmeta["x1"], consumed=True, sortdirect=True)}
+        post_model = []
         outcols = keep
     else:
         raise ValueError(pl)
@@ -414,6 +427,19 @@ class WinGen(P.Gen):
             for nm, m in (s.info.get("wcols") or {}).items():
                 wmeta[nm] = m
         return WProgram(pg.steps, pg.ordered, pg.final_cols, dict(pg.meta, wcols=wmeta, tainted=True))
+
+    def t_sort(self, st):
+        # a sort key that is syntactically a negation (`(-(b))`) is read by PRQL as "descending b", which is not
+        # "ascending -b" (NULLs go to the other end): keep such keys out, the reference semantics sorts by value
+        for _ in range(8):
+            saved = (st["order"], st.get("uniq_dropped"))
+            step = super().t_sort(st)
+            if step is None or not any(e[0] == "neg" for _, e in step.info["keys"]):
+                return step
+            st["order"] = saved[0]
+            if saved[1]:
+                st["uniq_dropped"] = saved[1]
+        return None
 
     def _frame(self, single_id_key):
         r = self.r
